@@ -14,6 +14,19 @@ impl<T> Bucket<T> {
 pub struct RawTable<T> {
     pub table: RawTableInner,
     pub marker: Ghost<Option<T>>,
+    /// R21: the buckets whose element has been dropped in place, in order
+    pub drop_log: Ghost<Seq<int>>,
+}
+pub uninterp spec fn spec_needs_drop<T>() -> bool;
+#[verifier::external_body]
+pub fn needs_drop<T>() -> (r: bool)
+    ensures r == spec_needs_drop::<T>(),
+{ unimplemented!() }
+/// the FULL buckets below hi, ascending
+pub open spec fn full_upto(c: Seq<u8>, hi: int) -> Seq<int>
+    decreases hi,
+{
+    if hi <= 0 { Seq::empty() } else if c[hi - 1] < 0x80u8 { full_upto(c, hi - 1).push(hi - 1) } else { full_upto(c, hi - 1) }
 }
 
 impl RawTableInner {
@@ -85,6 +98,12 @@ impl<T> RawTable<T> {
     {
         unimplemented!()
     }
+    // Bucket::drop on the bucket with this index: it must hold a live element
+    #[verifier::external_body]
+    pub fn drop_bucket_at(&mut self, index: usize)
+        requires index < old(self).table.nb(), old(self).table.ctrl@[index as int] < 0x80u8,
+        ensures final(self).table == old(self).table, final(self).drop_log@ == old(self).drop_log@.push(index as int),
+    { unimplemented!() }
     pub open spec fn spec_is_bucket_full(&self, index: usize) -> bool { self.table.ctrl@[index as int] < 0x80u8 }
     #[verifier::when_used_as_spec(spec_is_bucket_full)]
     pub fn is_bucket_full(&self, index: usize) -> (r: bool)
